@@ -3,7 +3,7 @@
    payload type L with arbitrary operations Lo (lbuf.c is abstract here): whatever the operations on the
    current buffer do, the table code does not let them reach any other buffer. *)
 From Coq Require Import List ZArith NArith Bool Permutation.
-From NV Require Import GenConsts BufsDefs BufsProps.
+From NV Require Import GenConsts BufsDefs BufsProps BufsWf BufsReach.
 Import ListNotations.
 
 (* bufs_switch(idx): the table right before the rotation (`saved`) differs from the old table in slot 0 only --
@@ -20,6 +20,29 @@ Theorem C20_switch_permutes : forall (L Op Out : Type) (Lo : lops L Op Out) (s :
   cnt s' = cnt s /\ fs s' = fs s.
 Proof. intros L Op Out Lo. exact (switch_permutes Lo). Qed.
 Print Assumptions C20_switch_permutes.
+
+(* Well-formedness of the table: wf s says that the ids of the occupied slots are pairwise distinct, positive and at most
+   bufs_cnt and that the occupied slots are a prefix of the 16 slots (BufsWf.wf: the list of optional ids is
+   map Some ks ++ repeat None (16 - |ks|) with NoDup ks).  It holds after ex_init and is preserved by EVERY command
+   (also by a 17th :e, which replaces slot 15), hence in every reachable state; so "a buffer with id n" is THE buffer. *)
+Theorem C20_wf_reachable : forall (L Op Out : Type) (Lo : lops L Op Out) files argv (cs : list (cmd Op)),
+  wf (fst (ex_init Lo files argv)) /\
+  (forall s c, wf s -> wf (fst (ex_command Lo s c))) /\
+  wf (run Lo (fst (ex_init Lo files argv)) cs).
+Proof.
+  intros L Op Out Lo files argv cs. split; [apply wf_init|]. split; [intros s c; apply wf_step|]. apply wf_run, wf_init.
+Qed.
+Print Assumptions C20_wf_reachable.
+Theorem C20_wf_reading : forall (L : Type) (s : st L), wf s ->
+  length (bufs s) = NB /\ (0 <= cnt s)%Z /\
+  (forall i j b b', nth_error (bufs s) i = Some (Some b) -> nth_error (bufs s) j = Some (Some b') -> b_id b = b_id b' -> i = j) /\
+  (forall i b, nth_error (bufs s) i = Some (Some b) -> (0 < b_id b <= cnt s)%Z) /\
+  (forall i j b, nth_error (bufs s) i = Some (Some b) -> (j <= i)%nat -> exists b', nth_error (bufs s) j = Some (Some b')).
+Proof.
+  intros L s W. split; [apply wf_length; exact W|]. split; [apply wf_cnt; exact W|].
+  split; [intros i j b b'; apply wf_unique; exact W|]. split; [intros i b; apply wf_bound; exact W|]. intros i j b; apply wf_prefix; exact W.
+Qed.
+Print Assumptions C20_wf_reading.
 
 (* One command (any of :e :e! :ew :e # :b :b n :b + :b - :b % # ^ :b ! :next :prev :q :q! :w :w path, set wa,
    or ANY operation on the current buffer), issued while the table has 16 slots and -- if it allocates a new
@@ -40,12 +63,31 @@ Print Assumptions C20_isolation_step.
    at the start either is still there at the end, never having been current, unchanged -- or there is a first
    command after which it is the current buffer, unchanged, with the globals equal to its saved view
    ("returning to a buffer restores its saved row/offset"). *)
-Theorem C20_isolation : forall (L Op Out : Type) (Lo : lops L Op Out) (cs : list (cmd Op)) (s : st L) (j : nat) (b : buf L),
+Theorem C20_isolation_ids : forall (L Op Out : Type) (Lo : lops L Op Out) (cs : list (cmd Op)) (s : st L) (j : nat) (b : buf L),
   length (bufs s) = NB -> (1 <= j)%nat -> nth_error (bufs s) j = Some (Some b) -> safe Lo s cs ->
   (exists j' b', (1 <= j')%nat /\ nth_error (bufs (run Lo s cs)) j' = Some (Some b') /\ same_buf Lo b b')
   \/ (exists pre c post b', cs = pre ++ c :: post /\ slot0 (run Lo s (pre ++ [c])) = Some b' /\ same_buf Lo b b' /\
                             xv (run Lo s (pre ++ [c])) = b_view b).
 Proof. intros L Op Out Lo. exact (isolation_run Lo). Qed.
+Print Assumptions C20_isolation_ids.
+
+(* `b ~` (bufs_number): every buffer stays in its slot and keeps path, lbuf, saved view and mtime; only ids change -- in a
+   well-formed table the buffer in slot j gets id j + 1 (ids 1..n in most-recently-used order). *)
+Theorem C20_renumber : forall (L : Type) (s : st L) (j : nat) (b : buf L),
+  wf s -> nth_error (bufs s) j = Some (Some b) ->
+  nth_error (bufs (bufs_number s)) j = Some (Some (set_id b (Z.of_nat j + 1))) /\ xv (bufs_number s) = xv s /\ fs (bufs_number s) = fs s.
+Proof. intros L. exact (@number_spec L). Qed.
+Print Assumptions C20_renumber.
+
+(* The history theorem for ALL command sequences within 16 buffers, `b ~` included: as C20_isolation_ids, with "unchanged"
+   read modulo the id (same path, saved view, mtime, lbuf up to the useq counter) -- renumbering is the only command
+   that changes the id of a buffer (C20_isolation_step / C20_isolation_ids for histories without it). *)
+Theorem C20_isolation : forall (L Op Out : Type) (Lo : lops L Op Out) (cs : list (cmd Op)) (s : st L) (j : nat) (b : buf L),
+  length (bufs s) = NB -> (1 <= j)%nat -> nth_error (bufs s) j = Some (Some b) -> safe_all Lo s cs ->
+  (exists j' b', (1 <= j')%nat /\ nth_error (bufs (run Lo s cs)) j' = Some (Some b') /\ same_mod_id Lo b b')
+  \/ (exists pre c post b', cs = pre ++ c :: post /\ slot0 (run Lo s (pre ++ [c])) = Some b' /\ same_mod_id Lo b b' /\
+                            xv (run Lo s (pre ++ [c])) = b_view b).
+Proof. intros L Op Out Lo. exact (isolation_all Lo). Qed.
 Print Assumptions C20_isolation.
 
 (* :b n reaches a buffer with id n (the first slot holding that id; ids are unique in reachable states), as it was
@@ -88,12 +130,61 @@ Theorem C20_reaches_alt : forall (L Op Out : Type) (Lo : lops L Op Out) (s : st 
 Proof. intros L Op Out Lo. exact (reaches_alt Lo). Qed.
 Print Assumptions C20_reaches_alt.
 
-(* C20_reaches_named_partial: the clauses above are proved; NOT proved (explored by the correspondence run only):
-   `:b +` / `:b -` reach the least id above / the greatest id below the current one (scan_next / scan_prev),
-   and `:e path` / `:e #` WITHOUT `!` and without writeany when the current buffer is clean (the state then first
-   passes through bufs_modified(0), which only bumps the counter of slot 0 -- see C20_isolation_step).
-   Full statement intended:
-     forall s, wf s -> forall target, names s c target -> not_refused s c -> slot0 (fst (ex_command Lo s c)) ~ target. *)
+(* `b +` reaches THE buffer with the least id above the current one, `b -` the one with the greatest id below it; there is
+   no wrap-around: when no such id exists the command fails with "no such buffer" and changes nothing. *)
+Theorem C20_reaches_next : forall (L Op Out : Type) (Lo : lops L Op Out) (s : st L) (b0 : buf L) (i : nat) (b : buf L),
+  wf s -> slot0 s = Some b0 -> nth_error (bufs s) i = Some (Some b) -> (b_id b0 < b_id b)%Z ->
+  (forall j b', nth_error (bufs s) j = Some (Some b') -> (b_id b0 < b_id b')%Z -> (b_id b <= b_id b')%Z) ->
+  (xwa s = true \/ dirty_at Lo s 0 = false) ->
+  let s' := fst (ec_buffer_next Lo s) in slot0 s' = Some b /\ xv s' = b_view b /\ fs s' = fs s.
+Proof. intros L Op Out Lo. exact (reaches_next Lo). Qed.
+Print Assumptions C20_reaches_next.
+Theorem C20_reaches_prev : forall (L Op Out : Type) (Lo : lops L Op Out) (s : st L) (b0 : buf L) (i : nat) (b : buf L),
+  wf s -> slot0 s = Some b0 -> nth_error (bufs s) i = Some (Some b) -> (b_id b < b_id b0)%Z ->
+  (forall j b', nth_error (bufs s) j = Some (Some b') -> (b_id b' < b_id b0)%Z -> (b_id b' <= b_id b)%Z) ->
+  (xwa s = true \/ dirty_at Lo s 0 = false) ->
+  let s' := fst (ec_buffer_prev Lo s) in slot0 s' = Some b /\ xv s' = b_view b /\ fs s' = fs s.
+Proof. intros L Op Out Lo. exact (reaches_prev Lo). Qed.
+Print Assumptions C20_reaches_prev.
+Theorem C20_next_prev_at_the_ends : forall (L Op Out : Type) (Lo : lops L Op Out) (s : st L),
+  ((forall j b, nth_error (bufs s) j = Some (Some b) -> (b_id b <= cur_id s)%Z) -> ec_buffer_next Lo s = (s, [EvMsg MNoSuch])) /\
+  ((forall j b, nth_error (bufs s) j = Some (Some b) -> (cur_id s <= b_id b)%Z) -> ec_buffer_prev Lo s = (s, [EvMsg MNoSuch])).
+Proof. intros L Op Out Lo s. split; [apply next_none|apply prev_none]. Qed.
+Print Assumptions C20_next_prev_at_the_ends.
+
+(* :e path / :e # in ALL forms (with `!`, under writeany, or plain with a clean current buffer -- the form WITH the dirty
+   test): the open buffer is reached, nothing is read (no event), the file system is untouched. *)
+Theorem C20_reaches_path_clean : forall (L Op Out : Type) (Lo : lops L Op Out) (s : st L) (bang : bool) (a : parg) (p : path) (i : nat) (b : buf L),
+  (bang || xwa s = true \/ dirty_at Lo s 0 = false) ->
+  pathexpand s a = Some p -> p <> [] -> bufs_find s p = Some i -> (1 <= i)%nat -> nth_error (bufs s) i = Some (Some b) ->
+  let r := ec_edit Lo s bang false a in
+  snd r = true /\ snd (fst r) = [] /\ slot0 (fst (fst r)) = Some b /\ xv (fst (fst r)) = b_view b /\ fs (fst (fst r)) = fs s /\ b_path b = canon p.
+Proof. intros L Op Out Lo. exact (reaches_path_gen Lo). Qed.
+Print Assumptions C20_reaches_path_clean.
+Theorem C20_reaches_alt_clean : forall (L Op Out : Type) (Lo : lops L Op Out) (s : st L) (bang : bool) (b0 b1 : buf L),
+  (bang || xwa s = true \/ dirty_at Lo s 0 = false) ->
+  nth_error (bufs s) 0 = Some (Some b0) -> nth_error (bufs s) 1 = Some (Some b1) ->
+  b_path b1 <> [47%N] -> b_path b0 <> b_path b1 ->
+  let r := ec_edit Lo s bang false PAlt in
+  snd r = true /\ snd (fst r) = [] /\ slot0 (fst (fst r)) = Some b1 /\ xv (fst (fst r)) = b_view b1 /\ fs (fst (fst r)) = fs s.
+Proof. intros L Op Out Lo. exact (reaches_alt_gen Lo). Qed.
+Print Assumptions C20_reaches_alt_clean.
+
+(* The summary over whole command lines (ex_command = the command + the closing lbuf_modified): in a well-formed table,
+   if command c names the buffer b in slot i >= 1 (BufsReach.names: `b n` -- id n; `b +` / `b -` -- least id above / greatest
+   id below the current one; `b #`, `b ^` -- slots 1, 2; `e`/`e!` path, `e #`, `e %` -- the first slot whose path is the
+   expanded argument) and the command is not refused (`!`, writeany, or the current buffer is clean), then afterwards b is the
+   current buffer (its lbuf only bumped), the globals are its saved view and the file system is untouched (nothing re-read);
+   and the named buffer is unique. *)
+Theorem C20_reaches_named : forall (L Op Out : Type) (Lo : lops L Op Out) (s : st L) (c : cmd Op) (i : nat) (b : buf L),
+  wf s -> names s c i b -> not_refused Lo s c ->
+  let s' := fst (ex_command Lo s c) in slot0 s' = Some (bump Lo b) /\ xv s' = b_view b /\ fs s' = fs s.
+Proof. intros L Op Out Lo. exact (reaches_named Lo). Qed.
+Print Assumptions C20_reaches_named.
+Theorem C20_named_unique : forall (L Op : Type) (s : st L) (c : cmd Op) (i : nat) (b : buf L) (i' : nat) (b' : buf L),
+  wf s -> names s c i b -> names s c i' b' -> i = i' /\ b = b'.
+Proof. intros L Op. exact (@names_unique L Op). Qed.
+Print Assumptions C20_named_unique.
 
 (* :q without ! -- if no buffer is dirty the editor quits; otherwise xquit is unchanged and the current buffer
    becomes the FIRST dirty one in slot order (its lbuf only bumped; slot 0 additionally gets the globals saved). *)
@@ -125,8 +216,12 @@ Print Assumptions C20_seventeenth_refuted.
 Example C20_nonvacuous :
   let s := run clb_ops (fst (c_init [] [nm 1])) [CSetWa true; CEdit false false (PLit (nm 2)); CEdit false false (PLit (nm 3))] in
   let cs := [COp (OAppend None [[120%N]]); CBufId 1; COp (OAppend None [[121%N]]); CEdit false false PAlt; CQuit false] in
-  length (bufs s) = NB /\ (exists b, nth_error (bufs s) 2 = Some (Some b)) /\ safe clb_ops s cs.
+  length (bufs s) = NB /\ (exists b, nth_error (bufs s) 2 = Some (Some b)) /\ safe clb_ops s cs /\
+  safe_all clb_ops s (CBufRenum :: cs) /\ wf s /\ (exists b, names s (CBufId 1 : cmd cop) 2 b /\ not_refused clb_ops s (CBufId 1 : cmd cop)).
 Proof.
   cbn zeta. split; [vm_compute; reflexivity|]. split; [vm_compute; eexists; reflexivity|].
-  cbn [safe]. repeat (right; split; [discriminate|]; split; [left; vm_compute; auto 20|]). exact I.
+  split. { cbn [safe]. repeat (right; split; [discriminate|]; split; [left; vm_compute; auto 20|]). exact I. }
+  split. { cbn [safe_all]. repeat (right; split; [left; vm_compute; auto 20|]). exact I. }
+  split. { apply wf_run. exact (wf_init clb_ops [] [nm 1]). }
+  eexists. split; [split; [|split]|]; [| vm_compute; reflexivity | vm_compute; reflexivity | left; vm_compute; reflexivity]. auto.
 Qed.
